@@ -1105,12 +1105,39 @@ impl<A: Cx> World<A> {
             }
             // ---------------------------------------------------------------- custom codon tables
             "tablenew" => {
-                let mut m: HashMap<Seq<A>, Amino> = HashMap::new();
-                for e in op["entries"].as_array().unwrap() {
-                    let key: Seq<A> = gsyms::<A>(&e["k"]).into_iter().collect();
-                    m.insert(key, sym::<Amino>(e["v"].as_u64().unwrap() as u8));
-                }
-                self.tabs[gu(op, "t")] = Some(CodonTable::from_map(m));
+                let pairs: Vec<(Seq<A>, Amino)> = op["entries"]
+                    .as_array()
+                    .unwrap()
+                    .iter()
+                    .map(|e| (gsyms::<A>(&e["k"]).into_iter().collect::<Seq<A>>(), sym::<Amino>(e["v"].as_u64().unwrap() as u8)))
+                    .collect();
+                // every `Into<HashMap<Seq, Amino>>` source
+                let table = match op["via"].as_str().unwrap_or("hashmap") {
+                    "hashmap" => CodonTable::from_map(pairs.into_iter().collect::<HashMap<Seq<A>, Amino>>()),
+                    "vec" => {
+                        let mut m: HashMap<Seq<A>, Amino> = HashMap::with_capacity(1);
+                        for (k, v) in pairs.into_iter().rev() {
+                            m.entry(k).or_insert(v);
+                        }
+                        CodonTable::from_map(m)
+                    }
+                    "btree" => {
+                        let mut m: HashMap<Seq<A>, Amino> = HashMap::new();
+                        m.extend(pairs);
+                        m.shrink_to_fit();
+                        CodonTable::from_map(m)
+                    }
+                    "array" => match pairs.len() {
+                        0 => CodonTable::from_map::<[(Seq<A>, Amino); 0]>([]),
+                        1 => CodonTable::from_map::<[(Seq<A>, Amino); 1]>(pairs.try_into().ok().unwrap()),
+                        2 => CodonTable::from_map::<[(Seq<A>, Amino); 2]>(pairs.try_into().ok().unwrap()),
+                        3 => CodonTable::from_map::<[(Seq<A>, Amino); 3]>(pairs.try_into().ok().unwrap()),
+                        4 => CodonTable::from_map::<[(Seq<A>, Amino); 4]>(pairs.try_into().ok().unwrap()),
+                        _ => CodonTable::from_map(pairs.into_iter().collect::<HashMap<Seq<A>, Amino>>()),
+                    },
+                    o => panic!("harness: tablenew via {o}"),
+                };
+                self.tabs[gu(op, "t")] = Some(table);
                 json!({"ok": true})
             }
             "tableamino" => {
